@@ -378,4 +378,324 @@ example : checkSignature [["x"], ["y", "why"]] ["a"] [] (.add (.var "x") (.var "
   checkSignature_rejects_undeclared _ _ _ _ "q" (by simp [symbols, rename, replFn]) (by simp)
     (by simp)
 
+/-! ### C11.1 user functions: the value is the formula with the bodies substituted -/
+
+/-- simultaneous substitution of expressions for scalar symbols (first entry wins) -/
+def substs (σ : List (String × Expr)) : Expr → Expr
+  | .num q => .num q
+  | .var y => match σ.lookup y with
+    | some r => r
+    | none => .var y
+  | .idx y i => .idx y i
+  | .named c => .named c
+  | .neg a => .neg (substs σ a)
+  | .add a b => .add (substs σ a) (substs σ b)
+  | .sub a b => .sub (substs σ a) (substs σ b)
+  | .mul a b => .mul (substs σ a) (substs σ b)
+  | .div a b => .div (substs σ a) (substs σ b)
+  | .powI a n => .powI (substs σ a) n
+  | .call1 f a => .call1 f (substs σ a)
+  | .call2 f a b => .call2 f (substs σ a) (substs σ b)
+  | .heav1 a => .heav1 (substs σ a)
+  | .heav2 a h => .heav2 (substs σ a) (substs σ h)
+  | .cmp op a b => .cmp op (substs σ a) (substs σ b)
+
+/-- no indexed symbol occurs -/
+def noIdx : Expr → Bool
+  | .num _ => true
+  | .var _ => true
+  | .idx _ _ => false
+  | .named _ => true
+  | .neg a => noIdx a
+  | .add a b => noIdx a && noIdx b
+  | .sub a b => noIdx a && noIdx b
+  | .mul a b => noIdx a && noIdx b
+  | .div a b => noIdx a && noIdx b
+  | .powI a _ => noIdx a
+  | .call1 _ a => noIdx a
+  | .call2 _ a b => noIdx a && noIdx b
+  | .heav1 a => noIdx a
+  | .heav2 a h => noIdx a && noIdx h
+  | .cmp _ a b => noIdx a && noIdx b
+
+/-- the body of a user function mentions only its parameters (as scalars) -/
+def UDef.closed (d : UDef) : Bool :=
+  noIdx d.body && (symbols d.body).all (fun s => d.params.contains s)
+
+/-- replace every call of a user function by its body with the (inlined) arguments substituted
+for the parameters -/
+def inlineUser (defs : List UDef) : Expr → Expr
+  | .num q => .num q
+  | .var y => .var y
+  | .idx y i => .idx y i
+  | .named c => .named c
+  | .neg a => .neg (inlineUser defs a)
+  | .add a b => .add (inlineUser defs a) (inlineUser defs b)
+  | .sub a b => .sub (inlineUser defs a) (inlineUser defs b)
+  | .mul a b => .mul (inlineUser defs a) (inlineUser defs b)
+  | .div a b => .div (inlineUser defs a) (inlineUser defs b)
+  | .powI a n => .powI (inlineUser defs a) n
+  | .call1 f a =>
+    match defs.find? (fun d => d.name = f && d.params.length == 1) with
+    | some d => substs (d.params.zip [inlineUser defs a]) d.body
+    | none => .call1 f (inlineUser defs a)
+  | .call2 f a b =>
+    match defs.find? (fun d => d.name = f && d.params.length == 2) with
+    | some d => substs (d.params.zip [inlineUser defs a, inlineUser defs b]) d.body
+    | none => .call2 f (inlineUser defs a) (inlineUser defs b)
+  | .heav1 a => .heav1 (inlineUser defs a)
+  | .heav2 a h => .heav2 (inlineUser defs a) (inlineUser defs h)
+  | .cmp op a b => .cmp op (inlineUser defs a) (inlineUser defs b)
+
+section field
+variable {K : Type} [Field K]
+
+/-- simultaneous substitution = evaluating the substituted expressions first and binding the
+symbols to their values -/
+theorem eval_substs (T : FunTab K) (env : Env K) (σ : List (String × Expr)) (e : Expr) :
+    eval T env (substs σ e) =
+      eval T { env with sc := fun y => match σ.lookup y with
+                                        | some r => eval T env r
+                                        | none => env.sc y } e := by
+  induction e with
+  | var y =>
+    simp only [substs, eval]
+    cases σ.lookup y <;> simp [eval]
+  | _ => simp_all [substs, eval]
+
+/-- without indexed symbols the value depends only on the scalar readings of the symbols that
+occur -/
+theorem eval_congr_sc (T : FunTab K) (env env' : Env K) (e : Expr) (hi : noIdx e = true)
+    (h : ∀ s ∈ symbols e, env.sc s = env'.sc s) : eval T env e = eval T env' e := by
+  induction e with
+  | num q => simp [eval]
+  | var x => simpa [eval] using h x (by simp [symbols])
+  | idx x i => simp [noIdx] at hi
+  | named c => simp [eval]
+  | neg a iha | powI a n iha | call1 f a iha | heav1 a iha =>
+    simp only [noIdx] at hi
+    simp [eval, iha hi (fun s hs => h s (by simpa [symbols] using hs))]
+  | add a b iha ihb | sub a b iha ihb | mul a b iha ihb | div a b iha ihb
+  | call2 f a b iha ihb | heav2 a b iha ihb | cmp op a b iha ihb =>
+    simp only [noIdx, Bool.and_eq_true] at hi
+    simp [eval, iha hi.1 (fun s hs => h s (by simp [symbols, hs])),
+      ihb hi.2 (fun s hs => h s (by simp [symbols, hs]))]
+
+/-- positional binding of parameters to the values of argument expressions reads, for a
+parameter, the value of the expression that simultaneous substitution puts in its place -/
+theorem bindEnv_sc_zip (T : FunTab K) (env : Env K) (ps : List String) (as : List Expr)
+    (d : Env K) (s : String) (hs : s ∈ ps) (hlen : ps.length ≤ as.length) :
+    (bindEnv ps (as.map (fun a => Val.sc (eval T env a))) d).sc s =
+      match (ps.zip as).lookup s with
+      | some r => eval T env r
+      | none => env.sc s := by
+  induction ps generalizing as with
+  | nil => simp at hs
+  | cons p ps ih =>
+    cases as with
+    | nil => simp at hlen
+    | cons a as =>
+      simp only [List.map_cons, bindEnv, Env.bind1, List.zip_cons_cons, List.lookup_cons]
+      by_cases hsp : s = p
+      · simp [hsp, Val.toSc]
+      · have hs' : s ∈ ps := by
+          rcases List.mem_cons.mp hs with h1 | h1
+          · exact absurd h1 hsp
+          · exact h1
+        have hbeq : (s == p) = false := by simpa using hsp
+        simp only [hsp, if_false, hbeq]
+        exact ih as hs' (by simpa using hlen)
+
+/-- the body of a closed user function, evaluated in the fresh environment of the call, has the
+value of the body with the argument expressions substituted, evaluated at the call site -/
+theorem eval_body_substs (T : FunTab K) (env : Env K) (d : UDef) (as : List Expr)
+    (hc : d.closed = true) (hlen : d.params.length ≤ as.length) :
+    eval T (bindEnv d.params (as.map (fun a => Val.sc (eval T env a))) defaultEnv) d.body =
+      eval T env (substs (d.params.zip as) d.body) := by
+  rw [eval_substs]
+  simp only [UDef.closed, Bool.and_eq_true, List.all_eq_true, List.contains_eq_mem,
+    decide_eq_true_eq] at hc
+  apply eval_congr_sc _ _ _ _ hc.1
+  intro s hs
+  exact bindEnv_sc_zip T env d.params as defaultEnv s (hc.2 s hs) hlen
+
+/-- **withUser_inline** (evaluation theorem for user functions): with closed bodies, the value of
+an expression under the table extended by the user functions is the value, under the BASE table,
+of the formula in which every call `f(a)` is replaced by the body of `f` with `a` substituted for
+the parameter - nested calls and calls inside arguments included -/
+theorem withUser_inline (T : FunTab K) (defs : List UDef) (hdefs : ∀ d ∈ defs, d.closed = true)
+    (env : Env K) (e : Expr) :
+    eval (withUser T defs) env e = eval T env (inlineUser defs e) := by
+  induction e with
+  | call1 f a iha =>
+    simp only [eval, inlineUser, iha]
+    simp only [withUser]
+    cases hfind : defs.find? (fun d => d.name = f && d.params.length == 1) with
+    | none => simp [eval]
+    | some d =>
+      have hd := List.find?_some hfind
+      simp only [Bool.and_eq_true, beq_iff_eq, decide_eq_true_eq] at hd
+      have := eval_body_substs T env d [inlineUser defs a]
+        (hdefs d (List.mem_of_find?_eq_some hfind)) (by simp [hd.2])
+      simpa using this
+  | call2 f a b iha ihb =>
+    simp only [eval, inlineUser, iha, ihb]
+    simp only [withUser]
+    cases hfind : defs.find? (fun d => d.name = f && d.params.length == 2) with
+    | none => simp [eval]
+    | some d =>
+      have hd := List.find?_some hfind
+      simp only [Bool.and_eq_true, beq_iff_eq, decide_eq_true_eq] at hd
+      have := eval_body_substs T env d [inlineUser defs a, inlineUser defs b]
+        (hdefs d (List.mem_of_find?_eq_some hfind)) (by simp [hd.2])
+      simpa using this
+  | _ => simp_all [eval, inlineUser, withUser]
+
+/-- `f(x + 1) * g(f(y), 2)` with `f(u) = u²`, `g(u, v) = u - v` is `(x+1)² * (y² - 2)` -/
+example : inlineUser [⟨"f", ["u"], .powI (.var "u") 2⟩, ⟨"g", ["u", "v"], .sub (.var "u") (.var "v")⟩]
+    (.mul (.call1 "f" (.add (.var "x") (.num 1))) (.call2 "g" (.call1 "f" (.var "y")) (.num 2))) =
+    .mul (.powI (.add (.var "x") (.num 1)) 2) (.sub (.powI (.var "y") 2) (.num 2)) := by
+  decide
+
+example : ∀ d ∈ [(⟨"f", ["u"], .powI (.var "u") 2⟩ : UDef),
+    ⟨"g", ["u", "v"], .sub (.var "u") (.var "v")⟩], d.closed = true := by
+  decide
+
+end field
+/-! ### C11.4 indexed symbols through the calling convention -/
+
+/-- replace the indexed symbol `x[i]` by the expression `r` -/
+def substIdx (x : String) (i : Nat) (r : Expr) : Expr → Expr
+  | .num q => .num q
+  | .var y => .var y
+  | .idx y j => if y = x ∧ j = i then r else .idx y j
+  | .named c => .named c
+  | .neg a => .neg (substIdx x i r a)
+  | .add a b => .add (substIdx x i r a) (substIdx x i r b)
+  | .sub a b => .sub (substIdx x i r a) (substIdx x i r b)
+  | .mul a b => .mul (substIdx x i r a) (substIdx x i r b)
+  | .div a b => .div (substIdx x i r a) (substIdx x i r b)
+  | .powI a n => .powI (substIdx x i r a) n
+  | .call1 f a => .call1 f (substIdx x i r a)
+  | .call2 f a b => .call2 f (substIdx x i r a) (substIdx x i r b)
+  | .heav1 a => .heav1 (substIdx x i r a)
+  | .heav2 a h => .heav2 (substIdx x i r a) (substIdx x i r h)
+  | .cmp op a b => .cmp op (substIdx x i r a) (substIdx x i r b)
+
+section field
+variable {K : Type} [Field K]
+
+/-- substitution lemma for indexed symbols: replacing `x[i]` by an expression is evaluating the
+expression first and storing its value in entry `i` of the indexed reading of `x` -/
+theorem eval_substIdx (T : FunTab K) (env : Env K) (x : String) (i : Nat) (r e : Expr) :
+    eval T env (substIdx x i r e) =
+      eval T { env with ix := fun y j => if y = x ∧ j = i then eval T env r else env.ix y j } e := by
+  induction e with
+  | idx y j =>
+    by_cases h : y = x ∧ j = i <;> simp [substIdx, eval, h]
+  | _ => simp_all [substIdx, eval]
+
+/-- substituting for the SCALAR symbol `x` does not touch the indexed symbol `x[i]` (sympy:
+`Symbol('x')` and `IndexedBase('x')[i]` are different atoms) -/
+theorem eval_subst_idx (T : FunTab K) (env : Env K) (x y : String) (i : Nat) (r : Expr) :
+    eval T env (subst x r (.idx y i)) = env.ix y i := by
+  simp [subst, eval]
+
+/-- positional binding, read at position `k`: the `k`-th name (at its first occurrence) denotes
+the `k`-th value, in both readings -/
+theorem bindEnv_get (ns : List String) (vs : List (Val K)) (d : Env K) (k : Nat) (n : String)
+    (v : Val K) (hn : ns[k]? = some n) (hv : vs[k]? = some v)
+    (hfirst : ∀ j < k, ns[j]? ≠ some n) :
+    (bindEnv ns vs d).sc n = v.toSc ∧ (bindEnv ns vs d).ix n = v.at := by
+  induction k generalizing ns vs with
+  | zero =>
+    cases ns with
+    | nil => simp at hn
+    | cons m ms =>
+      cases vs with
+      | nil => simp at hv
+      | cons w ws =>
+        simp only [List.getElem?_cons_zero, Option.some.injEq] at hn hv
+        subst hn; subst hv
+        simp [bindEnv, Env.bind1]
+  | succ k ih =>
+    cases ns with
+    | nil => simp at hn
+    | cons m ms =>
+      cases vs with
+      | nil => simp at hv
+      | cons w ws =>
+        simp only [List.getElem?_cons_succ] at hn hv
+        have hm : n ≠ m := by
+          intro h
+          exact hfirst 0 (Nat.succ_pos k) (by simp [h])
+        have := ih ms ws hn hv (fun j hj => by
+          have := hfirst (j + 1) (Nat.succ_lt_succ hj)
+          simpa using this)
+        simp [bindEnv, Env.bind1, hm, this.1, this.2]
+
+/-- **exprFunction_idx**: in an accepted call, the written indexed symbol `w[i]` whose definite
+name is the `k`-th variable of the signature reads entry `i` of the array passed as the `k`-th
+argument (the model's total reading: 0 beyond the end of the array) -/
+theorem exprFunction_idx (T : FunTab K) (sig : List (List String))
+    (consts : List (String × Val K)) (repl : List (String × String)) (w : String) (i k : Nat)
+    (args : List (Val K)) (l : List K) (v : K)
+    (h : exprFunction T sig consts repl (.idx w i) args = some v)
+    (hn : (sigVars sig)[k]? = some (sigFn sig (replFn repl w)))
+    (hfirst : ∀ j < k, (sigVars sig)[j]? ≠ some (sigFn sig (replFn repl w)))
+    (harg : args[k]? = some (Val.vec l)) :
+    v = l.getD i 0 := by
+  unfold exprFunction at h
+  split_ifs at h with hc
+  simp only [Bool.and_eq_true, beq_iff_eq] at hc
+  have hv := (Option.some.inj h).symm
+  rw [hv]
+  simp only [prepare, rename, eval, callEnv]
+  have hk : k < (sigVars sig).length := by
+    rcases Nat.lt_or_ge k (sigVars sig).length with h1 | h1
+    · exact h1
+    · rw [List.getElem?_eq_none h1] at hn; simp at hn
+  have hk' : k < args.length := by
+    rcases Nat.lt_or_ge k args.length with h1 | h1
+    · exact h1
+    · rw [List.getElem?_eq_none h1] at harg; simp at harg
+  have := bindEnv_get (sigVars sig ++ consts.map Prod.fst) (args ++ consts.map Prod.snd)
+    (defaultEnv : Env K) k (sigFn sig (replFn repl w)) (Val.vec l)
+    (by rw [List.getElem?_append_left hk]; exact hn)
+    (by rw [List.getElem?_append_left hk']; exact harg)
+    (fun j hj => by
+      rw [List.getElem?_append_left (Nat.lt_trans hj hk)]; exact hfirst j hj)
+  rw [this.2]
+  simp [Val.at]
+
+/-- ... and for an index inside the array that is the entry itself (py-pde raises IndexError
+beyond the end; the model's total reading 0 there is never compared: the generator draws indices
+inside the array) -/
+theorem exprFunction_idx_in_range (T : FunTab K) (sig : List (List String))
+    (consts : List (String × Val K)) (repl : List (String × String)) (w : String) (i k : Nat)
+    (args : List (Val K)) (l : List K) (v : K)
+    (h : exprFunction T sig consts repl (.idx w i) args = some v)
+    (hn : (sigVars sig)[k]? = some (sigFn sig (replFn repl w)))
+    (hfirst : ∀ j < k, (sigVars sig)[j]? ≠ some (sigFn sig (replFn repl w)))
+    (harg : args[k]? = some (Val.vec l)) (hi : i < l.length) :
+    v = l[i] := by
+  rw [exprFunction_idx T sig consts repl w i k args l v h hn hfirst harg]
+  simp [List.getD_eq_getElem?_getD, hi]
+
+/-- `f(x, arr) = arr[1] * x` with the synonym `a` for `arr`: `a[1]` reads the second entry of the
+second argument -/
+example : exprFunction (algTab : FunTab ℚ) [["x"], ["arr", "a"]] [] [] (.idx "a" 1)
+    [Val.sc 3, Val.vec [5, 7, 9]] = some 7 := by
+  have hacc : ∃ v, exprFunction (algTab : FunTab ℚ) [["x"], ["arr", "a"]] [] [] (.idx "a" 1)
+      [Val.sc 3, Val.vec [5, 7, 9]] = some v := by
+    unfold exprFunction
+    rw [if_pos (by decide)]
+    exact ⟨_, rfl⟩
+  obtain ⟨v, hv⟩ := hacc
+  rw [hv, exprFunction_idx _ _ _ _ "a" 1 1 _ [5, 7, 9] v hv (by decide)
+    (by intro j hj; have h0 : j = 0 := by omega
+        subst h0; decide) rfl]
+  simp
+
+end field
 end PdeVerif.Ex
